@@ -15,6 +15,9 @@ Streams
   F  pipelines: a READER's output (styles, classes, layouts) fed into a WRITER and read again:
      SAMI doc -> SAMIReader -> SAMIWriter / DFXP writers -> reader; DFXP doc -> DFXPReader -> SAMIWriter / DFXPWriter.
   H  2-3 step histories on ONE writer object.
+  FL SAMIParser._find_lang / handle_starttag called directly (stylesheet dict + attribute lists) - oracle ok_find_lang / ok_p_langs
+  CSS SAMIParser._css_parse on language blocks as the writer emits them - model read_styles
+  M  pycaption.base.merge_concurrent_captions on caption sets with runs of equal (start, end) - oracle ok_merge
 Correspondence: observation == extracted model (coq/model/Langs.v).  Property oracle: coq/spec/SpecLangs.v ok_*.
 Comparisons stronger than the statement (tt xml:lang on write, blank-paragraph placement, class names, default language of
 reader lang=None) are counted information or model disagreements, never violations.
@@ -289,7 +292,9 @@ def varcase(rng, w):
 
 def gen_find_lang(rng):
     """-> (abstract styles [[class, lang or None]], real styles [[class, {prop: value}]], ps = list of attribute lists).
-    Class keys are lower case (what _css_parse stores) except a rare upper-case key, which no lookup can reach."""
+    Class keys are lower case (what _css_parse stores) except a rare upper-case key, which no lookup can reach.
+    Attribute NAMES are lower case: html.parser hands them to handle_starttag that way (upper-case names in documents are
+    stream C's business); class VALUES come in any case."""
     chosen = rng.sample(FL_CLASSES, rng.randint(1, 5))
     styles = [[c, l] for c, l in chosen] + [[c, None] for c in rng.sample(["narrow", "plain", "wide"], rng.randint(0, 3))]
     if rng.random() < 0.15:
@@ -304,16 +309,16 @@ def gen_find_lang(rng):
         for _ in range(rng.choice([0, 1, 1, 2, 2, 3, 4, 5])):
             r = rng.random()
             if r < 0.22:
-                attrs.append([varcase(rng, "lang"), rng.choice(["fr", "en-US", "en", "e", "", "EN", "zh-Hans", "de-AT",
+                attrs.append(["lang", rng.choice(["fr", "en-US", "en", "e", "", "EN", "zh-Hans", "de-AT",
                                                                  "\u65e5\u672c\u8a9e", "fr"])])
             elif r < 0.45:
-                attrs.append([varcase(rng, "class"), varcase(rng, rng.choice(with_lang))])
+                attrs.append(["class", varcase(rng, rng.choice(with_lang))])
             elif r < 0.62:
-                attrs.append([varcase(rng, "class"), varcase(rng, rng.choice(without))])
+                attrs.append(["class", varcase(rng, rng.choice(without))])
             elif r < 0.74:
-                attrs.append([varcase(rng, "class"), rng.choice(["unknown", "Other", "", "encc narrow", "narrow encc", " encc"])])
+                attrs.append(["class", rng.choice(["unknown", "Other", "", "encc narrow", "narrow encc", " encc"])])
             else:
-                attrs.append([rng.choice(["id", "style", "xml:lang", "langs", "clas", "ID", "title"]),
+                attrs.append([rng.choice(["id", "style", "xml:lang", "langs", "clas", "title"]),
                               rng.choice(["fr", "encc", "x1", "", "color: red"])])
         ps.append(attrs)
     return styles, real, ps
@@ -810,14 +815,16 @@ def judge(acc, cfg, items, obs, models):
             o, bad = got, False
             whole = [whole_find(info["styles"], a) for a in info["ps"]]
             wtags = [w or default for w in whole]
-            for a, f, ok, w in zip(info["ps"], o["found"], okf, whole):
-                if not ok and f != w:
+            empty = [any(whole_find(info["styles"], [[x, v]]) == "" for x, v in a) for a in info["ps"]]
+            acc.count("FL_paragraph_with_an_attribute_naming_the_empty_language", sum(empty))
+            for a, f, ok, w, em in zip(info["ps"], o["found"], okf, whole, empty):
+                if not ok and f != w and not em:
                     acc.viol("sami-find-lang", "SAMIParser._find_lang(%r) with classes %r found %r" % (a, info["styles"], f), inp, stream=tag)
                     bad = True
                     break
             if bad:
                 continue
-            if not okp and not (o["tags"] == wtags and o["langs"] == first_seen(wtags)):
+            if not okp and not (o["tags"] == wtags and o["langs"] == first_seen(wtags)) and not any(empty):
                 acc.viol("sami-p-language", "handle_starttag over %r with classes %r: lang attributes %r, langs %r"
                          % (info["ps"], info["styles"], o["tags"], o["langs"]), inp, stream=tag)
                 continue
@@ -954,18 +961,26 @@ def run(ctx):
                    "(1-5 divs, repeated languages, nested divs, own / document / default language); B: caption sets of 1-4 languages "
                    "(interleaved, coinciding, disjoint times, equal-span runs, styles and classes) x 3 DFXP writers x force; C: SAMI "
                    "documents (class / inline lang / default in every order, blank paragraphs anywhere); D: SAMI writer bodies; "
-                   "E: WebVTT lang=, SRT, reader lang=; F: reader -> writer -> reader pipelines; H: histories on one writer")
+                   "E: WebVTT lang=, SRT, reader lang=; F: reader -> writer -> reader pipelines; H: histories on one writer; "
+                   "FL: SAMIParser._find_lang / handle_starttag on generated stylesheets and attribute lists; CSS: _css_parse on written "
+                   "language blocks; M: merge_concurrent_captions on generated sets with equal-span runs")
     res["clauses"] = {
         "theorem": ["DFXP read model = grouping by effective language for EVERY document (repeated / nested divs included); model "
                     "meets the oracle", "DFXP / legacy write, WebVTT pick: model meets the oracle (distinct language names)",
                     "SAMI read model = grouping of the tagged paragraphs, blank paragraphs counting for the order only; model meets the oracle",
                     "SAMI write: the model's body satisfies the WHOLE oracle ok_sami_body (sorted, per-language cue lists, no foreign "
                     "paragraph) for sets with distinct names, sorted languages, no cue text '&nbsp;'; never-mix for all inputs",
-                    "class layer: the class written for a paragraph resolves, through the written stylesheet, to its language"],
+                    "class layer: the class written for a paragraph resolves, through the written stylesheet, to its language; "
+                    "wave 7: and is read back under that language through the dict the parser rebuilds (later block wins)",
+                    "wave 7: find_lang = the specification (the first attribute naming a language decides; unique; attributes naming "
+                    "none and letter case do not matter); the reader model groups by the SPECIFICATION's tags",
+                    "wave 7: merge_concurrent_captions (loop + merge) = grouping of equal-(start, end) runs: languages untouched, texts "
+                    "per language conserved in order, neighbouring spans differ, idempotent"],
         "correspondence_only": ["bs4 / lxml / html.parser / cssutils layers (documents <-> abstract inputs of the model)",
-                                "how a SAMI paragraph gets its language from its attributes (model find_lang; the oracle's tags are the "
-                                "generator's)", "PYCAPTION_DEFAULT_LANG (unset, en-US, zh-Hans; thorough also x) and hash seeds",
-                                "merge of equal (start, end) runs by the single-positioning / legacy writers (joined by the harness)",
+                                "html.parser handing the attributes of a <P> to handle_starttag (stream C; the oracle's tags there are the "
+                                "generator's; _find_lang / handle_starttag themselves: stream FL against the Coq oracle)", "PYCAPTION_DEFAULT_LANG (unset, en-US, zh-Hans; thorough also x) and hash seeds",
+                                "that the single-positioning / legacy writers call merge_concurrent_captions before writing (streams B / F "
+                                "still join the runs in the harness; stream M checks that join against the model)",
                                 "SRT parts, reader lang= labelling, reader -> writer -> reader pipelines (stream F, oracle in Python: "
                                 "per-language cue lists equal to the format's resolution)"]}
     res["trusted_extra"] = ["harness/c14_worker.py (observation of outputs with lxml / bs4; stylesheet blocks by regular expression)"]
